@@ -20,34 +20,7 @@ pub type T = SimClock;
 pub type Scope = RootCompilationScope<W, R, T>;
 pub type Val = EvaluatedValue<W, R, T>;
 
-/// "unlimited" value that still switches the accounting on
-pub const BIG: usize = usize::MAX / 4;
-
-#[derive(Clone, Debug, Serialize, Deserialize, PartialEq, Default)]
-pub struct Limits {
-    pub size: Option<usize>,
-    pub depth: Option<usize>,
-    pub recursion: Option<usize>,
-    pub ud_call: Option<usize>,
-    pub search: Option<usize>,
-    pub time_ns: Option<u64>,
-}
-
-impl Limits {
-    /// accounting switched on, nothing can trip
-    pub fn calibration() -> Self {
-        Limits { size: Some(BIG), depth: None, recursion: None, ud_call: Some(BIG), search: None, time_ns: None }
-    }
-}
-
-pub const PERM_NAMES: [&str; 6] = ["now", "print", "print_debug", "random", "regex", "sleep"];
-
-/// per permission: None = left unset (documented default applies)
-pub type Perms = [Option<bool>; 6];
-
-pub fn perm_default(i: usize) -> bool {
-    i < 4
-}
+pub use crate::world::{perm_default, Limits, Perms, BIG, PERM_NAMES};
 
 fn permission_set(p: &Perms) -> PermissionSet {
     let all = [&bp::NOW, &bp::PRINT, &bp::PRINT_DEBUG, &bp::RANDOM, &bp::REGEX, &bp::SLEEP];
@@ -169,6 +142,8 @@ pub struct OpResult {
     pub model_calls: usize,
     pub out_len: usize,
     pub mono_ns: u64,
+    /// deepest user frame built during this op (0 = none)
+    pub max_height: usize,
 }
 
 pub struct RunResult {
@@ -297,8 +272,8 @@ fn mk_limits(l: &Limits, perms: &Perms) -> RuntimeLimits {
 pub fn run_compiled(scope: &Scope, sc: &Scenario) -> RunResult {
     world::install(sc.env.clone());
     world::with(|w| {
-        w.size_limit = sc.limits.size;
-        w.time_limit_ns = sc.limits.time_ns;
+        w.limits = sc.limits.clone();
+        w.perms = sc.perms;
         w.in_deadline_set = true;
     });
     let rt: RTCell<W, R, T> = mk_limits(&sc.limits, &sc.perms).to_runtime(SimWriter, SimClock);
@@ -455,6 +430,7 @@ fn op_result(outcome: Outcome, rt: &RTCell<W, R, T>) -> OpResult {
         model_calls: w.calls_since_reset,
         out_len: w.out.len(),
         mono_ns: w.mono_ns,
+        max_height: std::mem::take(&mut w.op_max_height),
     })
 }
 
